@@ -37,9 +37,9 @@ mut("c16_sub_negate_restore", "element.go", "q := element.copy().negate()\n\n\tr
 mut("c10_pow_exponent_mod_n_minus_1", "scalar.go", "\tbigS.Exp(bigS, bigT, order)", "\tbigT.Mod(bigT, new(big.Int).Sub(order, big.NewInt(1)))\n\tbigS.Exp(bigS, bigT, order)", ["C10"], "exponent reduced mod n-1: 0^(n-1) becomes 0^0 = 1")
 mut("c10_negate_identity_zeroes_y", "element.go", "func (e *Element) Negate() *Element {\n\tif e.IsIdentity() {\n\t\treturn e\n\t}", "func (e *Element) Negate() *Element {\n\tif e.IsIdentity() {\n\t\te.y.Set(&e.x)\n\n\t\treturn e\n\t}", ["C10"], "Negate of the identity produces (0:0:0), which compares equal to everything")
 
-mut("c10_hidden_closure_state_every_211th_negate", "element.go", "func (e *Element) Negate() *Element {\n\tif e.IsIdentity() {", "var negateTick = func() func() bool {\n\tn := 0\n\n\treturn func() bool {\n\t\tn++\n\n\t\treturn n%211 == 0\n\t}\n}()\n\n// Negate negates.\nfunc (e *Element) Negate() *Element {\n\tif negateTick() {\n\t\treturn e\n\t}\n\n\tif e.IsIdentity() {", ["C10", "C16"],
-    "state hidden in a closure (invisible to the package-state comparison): every 211th Negate in the process is skipped, so the failing run only fails after the runs that precede it in the same process - exercises the session replay. C16 reports it too (results depend on hidden mutable package state: not what the call returns when run alone). C15 may report it through M-scribble when the skipped call happens to fall into the execution with caller writes but into neither reference execution: an artefact of a call-count-dependent library, tolerated here and described in DESIGN.md 6.2",
-    allow=["C15"])
+mut("c10_hidden_closure_state_every_211th_negate", "element.go", "func (e *Element) Negate() *Element {\n\tif e.IsIdentity() {", "var negateTick = func() func() bool {\n\tn := 0\n\n\treturn func() bool {\n\t\tn++\n\n\t\treturn n%211 == 0\n\t}\n}()\n\n// Negate negates.\nfunc (e *Element) Negate() *Element {\n\tif negateTick() {\n\t\treturn e\n\t}\n\n\tif e.IsIdentity() {", ["C10"],
+    "state hidden in a closure (invisible to the package-state comparison): every 211th Negate in the process is skipped, so the failing run only fails after the runs that precede it in the same process - exercises the session replay. C16 may report it too (results depend on hidden mutable package state, so a call need not return what it returns when run alone) when the skipped call falls differently in the two executions it compares. C15 may report it through M-scribble when the skipped call happens to fall into the execution with caller writes but into neither reference execution: an artefact of a call-count-dependent library, tolerated here and described in DESIGN.md 6.2",
+    allow=["C15", "C16"])
 
 # ----------------------------------------------------------------- C15 sensitivity
 mut("c15_vetdst_append", "xmd.go", "\tdstPrime := make([]byte, 0, len(dst)+1)\n\tdstPrime = append(dstPrime, dst...)\n\n\treturn append(dstPrime, i2osp1(uint(len(dst)))[0])", "\treturn append(dst, i2osp1(uint(len(dst)))[0])", ["C15", "C16"], "the original defect")
